@@ -1070,10 +1070,11 @@ func init() {
 	mc.Register(&mc.Check{
 		ID:    "C17",
 		Level: "exploration",
-		Rule: "bounded exhaustive enumeration of legacy (Excellent1) expressions, each migrated by the real MigrateTemplate and evaluated by the real engine: (1) every chain of constructs of depth 1..3 " +
-			"(59 typed function signatures incl. SUM POWER CONCATENATE EXP LEFT RIGHT WORD WORD_SLICE FIELD WEEKDAY DAYS DATE TIME EDATE IF AND OR, the 11 binary operators, unary minus, date+-number, date+time) nested at every argument position of every other and on both sides of every operator, bare wherever the legacy grammar parses it as that operand and always also parenthesised, " +
-			"leaves from {2,3,10,contact.age | \"ab c\",\"q\"\"q\",\"w1 w2 w3 w4\",extra.s | TRUE,FALSE | literal dates and times} in 4 rotations (depth 3: 1 rotation in quick, 4 in thorough); (2) 21 string-literal forms (doubled quotes, backslashes, trailing backslash) alone, in every text position of every construct and all ordered pairs under & / CONCATENATE / =; " +
-			"(3) templates: 15 body texts (incl. @@, e-mail addresses, quotes, parentheses) before, between and after 1-2 expressions. A case is distinct by its text and counted in distinct_nontrivial when the legacy grammar parses it back to the generated tree and at least one oracle (reference model in its domain, or compositionality) decided it.",
+		Rule: fmt.Sprintf("bounded exhaustive enumeration of legacy (Excellent1) expressions, each migrated by the real MigrateTemplate and evaluated by the real engine: (1) every chain of constructs of depth 1..3 "+
+			"(%d typed constructs: function signatures incl. SUM POWER CONCATENATE EXP LEFT RIGHT WORD WORD_SLICE FIELD WEEKDAY DAYS DATE TIME EDATE IF AND OR, the 11 binary operators on numbers / text, unary minus, date and datetime +- number, date + time, datetime +- time) nested at every argument position of every other and on both sides of every operator, bare wherever the legacy grammar parses it as that operand and always also parenthesised, "+
+			"leaves from {2,3,10,contact.age | \"ab c\",\"q\"\"q\",\"w1 w2 w3 w4\",extra.s | TRUE,FALSE | literal dates and times, TODAY(), NOW()} in %d rotations (depth 3: 1 rotation in quick, %d in thorough); (2) %d string-literal forms (doubled quotes, backslashes, trailing backslash) alone, in every text position of every construct and all ordered pairs under & / CONCATENATE / =; "+
+			"(3) templates: %d body texts (incl. @@, e-mail addresses, quotes, parentheses) before, between and after 1-2 of %d expressions. A case is distinct by its text (rotations giving the same text are dropped) and counted in distinct_nontrivial when the legacy grammar (the generated Excellent1 parser) parses it back to the generated tree and at least one oracle (reference model in its domain, or compositionality) decided it.",
+			len(constructs), rotations, rotations, len(literalForms), len(bodyTexts), len(templateExprs)),
 		Assumptions: []string{
 			"the legacy denotation is given by Excellent1.g4 (precedence, left associativity, \"\" as the only escape) and Excel-style function semantics, modelled only where uncontroversial (the reference answers out-of-domain elsewhere)",
 			"operands from a fixed alphabet, not all values; nesting depth <= 3 with one nested operand per level",
